@@ -18,7 +18,7 @@ BUILT = {
          "DESIGN.md section 5 C02"),
  "C03": ("exploration",
          "Bounded-exhaustive enumeration of the catalogue of same-path families (Appendix B: all ordered pairs of members over small parameter lists, field terms and arguments, both registry orders; level 0 complete and level 1 strided in the quick tier, level 1 complete and level 2 strided in the thorough tier) plus random programs with associated-type and two-version definitions; oracle: generation succeeds only if every member is wire-faithfully represented by the kept item, and after ensure_unique_type_paths generation succeeds and the same holds.",
-         "Uses the C01 shape oracle; coincidental families are skipped and counted; the known finding dedup:renamed-path-collides is excluded by construction from part (b) and covered by its probe. Random families include near-miss versions (a definition copied with ONE mutation) and group versions (a whole group of definitions copied to the same paths, one copy mutated); a duplicate path that survives de-duplication is tolerated as the known finding only on registries of that finding's shape, otherwise it is dedup:insufficient.",
+         "Uses the C01 shape oracle; coincidental families are included (counted) since the second session - C03's quantifier does not exclude them; the known finding dedup:renamed-path-collides is excluded by construction from part (b) and covered by its probe. Random families include near-miss versions (a definition copied with ONE mutation) and group versions (a whole group of definitions copied to the same paths, one copy mutated); a duplicate path that survives de-duplication is tolerated as the known finding only on registries of that finding's shape, otherwise it is dedup:insufficient.",
          "bounded-exhaustive family enumeration + proptest-driven random families against the property-shaped shape oracle",
          "DESIGN.md section 5 C03, Appendix B"),
  "C04": ("exploration",
